@@ -454,7 +454,10 @@ class HTTPConnection(_HTTPConnection):
                 if isinstance(chunk, str):
                     chunk = chunk.encode("utf-8")
                 if chunked:
-                    self.send(b"%x\r\n%b\r\n" % (len(chunk), chunk))
+                    # The chunk size counts bytes; len() of a buffer object whose
+                    # items are wider than one byte counts items.
+                    chunk_view = memoryview(chunk)
+                    self.send(b"%x\r\n%b\r\n" % (chunk_view.nbytes, chunk_view))
                 else:
                     self.send(chunk)
 
